@@ -16,6 +16,43 @@ def is_flag_write(s, value=None):
     return False
 
 
+def d3_suspend_before_send(ctx, rm: REModel, rule="C09.D3-suspend-before-next-message"):
+    """In the message loop a suspension point dominates pulling the next message from the plan."""
+    repo = rm.repo
+    run = rm.run
+    gq = q.cfg(run, q.quiet_policy(repo))
+    sends = [s for s in A.walk_stmts(rm.inner_try.body) if any(isinstance(c.func, ast.Attribute) and c.func.attr == "send" and "self._plan_stack[-1]" in A.norm(c.func.value)
+                                                              for c in A.calls_in(s)) and not isinstance(s, (ast.Try, ast.If))]
+    ctx.require(sends, "anchor vanished: self._plan_stack[-1].send(resp) in _run")
+    inner_ids = {id(x) for x in A.walk_stmts(rm.inner_try.body)}
+    for s in sends:
+        # cut: the normal completion of an `await asyncio.sleep(...)` statement inside the inner try; also allow the
+        # path on which an exception is being propagated (stashed_exception is not None -> throw, not send)
+        def edge_ok(u, v, label, _g=gq):
+            n = _g.nodes[u]
+            if n.kind == "stmt" and n.stmt is not None and id(n.stmt) in inner_ids and A.has_await(n.stmt) and "asyncio.sleep" in A.norm(n.stmt):
+                return False
+            if n.kind == "test" and A.norm(n.ast) == "stashed_exception is None" and label == "F":
+                return False
+            return True
+        # start from the loop head (each iteration must suspend)
+        heads = gq.nodes_of(rm.loop)
+        heads = [h for h in heads if gq.nodes[h].kind == "test"]
+        seen = gq.reachable(heads, edge_ok=edge_ok)
+        bad = [t for t in gq.nodes_of(s) if t in seen]
+        w = gq.path_to(seen, bad[0]) if bad else None
+        ctx.ob(rule, cname(run, s), not bad,
+               "" if not bad else "the next message can be pulled from the plan in the same loop iteration without yielding to the event loop: "
+               "a pause requested by the previous message would run one message late", nontrivial=True, witness=w[-8:] if w else None, where=where(run, s))
+    # the `stashed_exception is None` branch taking the F edge must not reach send (it throws instead)
+    tests = [n for n in gq.nodes if n.kind == "test" and "stashed_exception is not None" in A.norm(n.ast)]
+    ctx.ob(rule, cname(run, None, "send only on the no-exception branch"), bool(tests),
+           "" if tests else "anchor: the test selecting throw vs send vanished", where=where(run, rm.inner_try))
+
+
+CLAIM = {'text': "Decides that the deferred-pause flag is set only on the accepted deferred branch and cleared only by a hard pause or the start of the next call (closed-world writers: _run's termination does not clear it), that in the checkpoint handler the bundling guard and the checkpoint reset dominate a pause requested with defer=False on the flag's true branch, and that in the message loop a suspension point dominates pulling the next message. Interaction with clear_checkpoint is not decided.", 'technique': 'ownership table; dominance on the handler CFG; cut-edge reachability in the message loop'}
+
+
 def run(ctx):
     rm = REModel(ctx.repo)
     repo = rm.repo
@@ -83,39 +120,7 @@ def run(ctx):
     ctx.ob("C09.D2-checkpoint-order", cname(rp, None, "hard pause clears the pending flag"), bool(clears),
            "" if clears else "after pausing at the checkpoint the request stays pending (the next checkpoint would pause again)", where=where(rp, rp.node))
 
-    # D3: suspension point before pulling the next message
-    run = rm.run
-    gq = q.cfg(run, q.quiet_policy(repo))
-    sends = [s for s in A.walk_stmts(rm.inner_try.body) if any(isinstance(c.func, ast.Attribute) and c.func.attr == "send" and "self._plan_stack[-1]" in A.norm(c.func.value)
-                                                              for c in A.calls_in(s)) and not isinstance(s, (ast.Try, ast.If))]
-    ctx.require(sends, "anchor vanished: self._plan_stack[-1].send(resp) in _run")
-    inner_ids = {id(x) for x in A.walk_stmts(rm.inner_try.body)}
-    for s in sends:
-        # cut: the normal completion of an `await asyncio.sleep(...)` statement inside the inner try; also allow the
-        # path on which an exception is being propagated (stashed_exception is not None -> throw, not send)
-        def edge_ok(u, v, label, _g=gq):
-            n = _g.nodes[u]
-            if n.kind == "stmt" and n.stmt is not None and id(n.stmt) in inner_ids and A.has_await(n.stmt) and "asyncio.sleep" in A.norm(n.stmt):
-                return False
-            if n.kind == "test" and A.norm(n.ast) == "stashed_exception is None" and label == "F":
-                return False
-            return True
-        # start from the loop head (each iteration must suspend)
-        heads = gq.nodes_of(rm.loop)
-        heads = [h for h in heads if gq.nodes[h].kind == "test"]
-        seen = gq.reachable(heads, edge_ok=edge_ok)
-        bad = [t for t in gq.nodes_of(s) if t in seen]
-        w = gq.path_to(seen, bad[0]) if bad else None
-        ctx.ob("C09.D3-suspend-before-next-message", cname(run, s), not bad,
-               "" if not bad else "the next message can be pulled from the plan in the same loop iteration without yielding to the event loop: "
-               "a pause requested by the previous message would run one message late", nontrivial=True, witness=w[-8:] if w else None, where=where(run, s))
-    # the `stashed_exception is None` branch taking the F edge must not reach send (it throws instead)
-    tests = [n for n in gq.nodes if n.kind == "test" and "stashed_exception is not None" in A.norm(n.ast)]
-    ctx.ob("C09.D3-suspend-before-next-message", cname(run, None, "send only on the no-exception branch"), bool(tests),
-           "" if tests else "anchor: the test selecting throw vs send vanished", where=where(run, rm.inner_try))
-
-
-CLAIM = {'text': "Decides that the deferred-pause flag is set only on the accepted deferred branch and cleared only by a hard pause or the start of the next call (closed-world writers: _run's termination does not clear it), that in the checkpoint handler the bundling guard and the checkpoint reset dominate a pause requested with defer=False on the flag's true branch, and that in the message loop a suspension point dominates pulling the next message. Interaction with clear_checkpoint is not decided.", 'technique': 'ownership table; dominance on the handler CFG; cut-edge reachability in the message loop'}
+    d3_suspend_before_send(ctx, rm)
 
 
 RE = "run_engine.py"
